@@ -83,7 +83,7 @@ CLAIMS['C06'] = ('Bounded symbolic model checking of the real surface code (Stan
     'one surface + image plane per configuration (the property names single-surface closed forms; multi-surface stigmatic systems follow by composing steps); azimuth atan2(4,3); degenerate rays lying in the image plane excluded; the aplanatic-point clause is only attempted in the thorough tier (genuinely algebraic radicals: reported inconclusive if the solver does not finish); zero wavefront error / Strehl 1 follow from these two facts through C09 (distance from the sphere centre is the radius) and C11 (unaberrated pupil) and are not re-derived here; very deep hyperboloids: known finding F24')
 CLAIMS['C07'] = ('Bounded symbolic model checking of metamorphic relations: the same real code is executed on a lens / ray and on its transformed description (both symbolic in the same variables) and the relation between the two results is decided: '
     'Optic.scale_system(s) = the lens built with every length times s (conic + plane singlet with aperture, infinite and finite object, all numbers and s symbolic; focal length scales); one surface step under scaling (positions and path x s, directions unchanged), under the two meridional mirrors (and the launch through trace_generic / get_vig_factor / generate_rays with symbolic vignetting under both mirrors and their product), with a dummy plane between equal media inserted, with the sphere tilted about its centre of curvature, and a dispersion-free plate at two symbolic wavelengths.',
-    'curved-surface steps in the quick tier: sphere (refracting 1 -> 1.5 and reflecting) with symbolic radius, hit point and start distance and ONE skew rational unit direction (2,-3,6)/7 (symbolic direction, indices and conic in the thorough tier); whole lenses follow from the step relations by induction (paper argument); tilting a spherical surface about its centre of curvature is decided for ONE angle, the Pythagorean rotation atan2(7,24) = 0.2838 rad about x or y (exact rational cosine and sine; a symbolic angle inside the intersection radicals was beyond the solver), for hit points inside the cap in both positions; Seidel sums under scaling not re-derived (C08 decides their formulas, which are homogeneous of degree 1)')
+    'curved-surface steps in the quick tier: sphere (refracting 1 -> 1.5 and reflecting) with symbolic radius, hit point and start distance and ONE skew rational unit direction (2,-3,6)/7 (conic with symbolic k in the thorough tier; a symbolic direction or symbolic indices on curved surfaces leave genuinely algebraic radicals and did not finish); whole lenses follow from the step relations by induction (paper argument); tilting a spherical surface about its centre of curvature is decided for ONE angle, the Pythagorean rotation atan2(7,24) = 0.2838 rad about x or y (exact rational cosine and sine; a symbolic angle inside the intersection radicals was beyond the solver), for hit points inside the cap in both positions; Seidel sums under scaling not re-derived (C08 decides their formulas, which are homogeneous of degree 1)')
 CLAIMS['C11'] = ('Bounded symbolic model checking of the real FFTPSF / FFTMTF / GeometricMTF code on the smallest grid with exact twiddle factors (pupil sampling 4, grid 4): symbolic wavefront errors (any size) and intensities; pupil = (I/mean I) exp(i 2 pi W) inside the unit disk, PSF = 100 |DFT|^2 / unaberrated peak at all 16 pixels, >= 0, total energy independent of W, Strehl = central value / 100 <= 1 (pairwise Cauchy-Schwarz lemmas + linear combination, each link a solver query), unaberrated peak exactly 100; '
     'MTF slices = |DFT(PSF)| normalised, start at one, within [0,1] for an arbitrary non-negative PSF; working F-number = 1/(2|u\'|) of the paraxial marginal ray on real singlets (infinite / finite object, stop at either surface), PSF pixel, MTF frequency step = 1/(grid x pixel), cut-off of both MTF classes.',
     'NOT decided (need realistic sampling, outside a solver encoding): MTF below the diffraction limit and its agreement with (2/pi)(phi - cos phi sin phi), the geometric MTF histogram transform, samplings 16-256 / grids 64-2048 (the code does not branch on the sizes; the DFT itself is numpy.fft, modelled exactly for N = 4), zero padding (grid > sampling); working F-number for a real inverted image in air')
